@@ -15,7 +15,8 @@ func init() {
 }
 
 var verifObjNames = [3]string{"alpha", "beta", "gamma"}
-var verifPropNames = [3]string{"count", "name", "size"}
+// two of the names differ only in case: distinct valid Go fields whose order must still be fixed
+var verifPropNames = [3]string{"hostIP", "hostIp", "size"}
 
 func verifCodegenSchema() (schema, int, [3]int, [3][3]string) {
 	var s schema
@@ -25,6 +26,7 @@ func verifCodegenSchema() (schema, int, [3]int, [3][3]string) {
 	nObj := nondetChoice("nobj", 3+verifTier())
 	typeIDs := [5]string{"integer", "float", "ref", "string", "bool"}
 	base := nondetChoice("typeBase", 5)
+	idKind := nondetChoice("idKind", 3)
 	var nProps [3]int
 	var types [3][3]string
 	s.Steps.Create.Input.Objects = map[string]struct {
@@ -44,7 +46,15 @@ func verifCodegenSchema() (schema, int, [3]int, [3][3]string) {
 			props[verifPropNames[j]] = p
 		}
 		o := s.Steps.Create.Input.Objects[verifObjNames[i]]
-		o.Id = verifObjNames[i]
+		// the struct is named after the key of the objects map; the inner id is normally the same but need not be
+		switch idKind {
+		case 0:
+			o.Id = verifObjNames[i]
+		case 1:
+			o.Id = ""
+		case 2:
+			o.Id = verifObjNames[(i+1)%3]
+		}
 		o.Properties = props
 		s.Steps.Create.Input.Objects[verifObjNames[i]] = o
 	}
